@@ -325,6 +325,29 @@ func genC06(r *Rng) c06In {
 		in.Mode = "empty"
 		return in // no primary rule file at all
 	}
+	if r.Chance(12) {
+		// a family the random graphs reach rarely: a matching (often terminating) rule whose delegated
+		// rule file holds zero or one rule, followed by further matching rules of the same file
+		in.Mode = "unique"
+		focus := r.Intn(2)
+		prim := c06File{Name: "targets", Principals: c06GenPrincipals(r, false), Rules: []c06Rule{}, Allow: true}
+		sub := c06File{Name: "A", Principals: c06GenPrincipals(r, false), Rules: []c06Rule{}, Allow: !r.Chance(10)}
+		first := c06GenRule(r, "A", prim.Principals, false, focus)
+		first.Terminating = r.Chance(75)
+		first.Patterns = []string{c06Focus[focus][r.Intn(len(c06Focus[focus]))]}
+		second := c06GenRule(r, "r1", prim.Principals, false, focus)
+		second.Patterns = []string{c06Focus[focus][r.Intn(len(c06Focus[focus]))]}
+		prim.Rules = append(prim.Rules, first, second)
+		if r.Chance(40) {
+			third := c06GenRule(r, "r2", prim.Principals, false, focus)
+			prim.Rules = append(prim.Rules, third)
+		}
+		if r.Chance(35) {
+			sub.Rules = append(sub.Rules, c06GenRule(r, "r3", sub.Principals, false, focus))
+		}
+		in.Policy.Files = []c06File{prim, sub}
+		return in
+	}
 	names := []string{"targets", "A", "B", "C"}
 	nf := 1 + r.Intn(4)
 	if r.Chance(60) {
